@@ -123,6 +123,14 @@ struct Node
 };
 using NodeP = std::shared_ptr<Node>;
 
+// space names are "N" + the number, zero-padded to a fixed width: CompareSubstateLocation orders names as strings and
+// the model orders the numbers; with a fixed width the two orders coincide
+static std::string nameOf(unsigned long long nm)
+{
+    std::string d = std::to_string(nm);
+    return "N" + std::string(d.size() < 9 ? 9 - d.size() : 0, '0') + d;
+}
+
 static bool isCompV(const NodeP &x)
 {
     return x->kind == 'C' || (x->kind == 'W' && isCompV(x->kids[0]));
@@ -232,7 +240,7 @@ static NodeP parseSp(const std::vector<std::string> &t, size_t &i)
     else
         return nullptr;
     // the name as seen through a base-class pointer (a wrapper keeps its own)
-    static_cast<ob::StateSpace *>(x->space.get())->setName("N" + std::to_string(x->nm));
+    static_cast<ob::StateSpace *>(x->space.get())->setName(nameOf(x->nm));
     return x;
 }
 
@@ -767,7 +775,7 @@ int main()
                     {
                         if (!vp::parseNat(a))
                             ok = false;
-                        names.push_back("N" + a);
+                        names.push_back(nameOf(*vp::parseNat(a)));
                     }
                 if (!ok)
                 {
@@ -777,6 +785,34 @@ int main()
                 res = ob::copyStateData(dx->space, d->second.st, sx->space, s->second.st, names);
             }
             std::cout << "ok res=" << (int)res << " atoms=" << dumpAtoms(dx, d->second.st) << std::endl;
+        }
+        else if (op == "common" && t.size() == 3 && natAt(1) && natAt(2))
+        {
+            // what SubspaceStateSampler does: getCommonSubspaces, then copyStateData restricted to those names
+            auto d = states.find(*natAt(1)), s = states.find(*natAt(2));
+            if (d == states.end() || s == states.end())
+            {
+                bad();
+                continue;
+            }
+            NodeP dx = spaces.at(d->second.spid), sx = spaces.at(s->second.spid);
+            if (hasWC(dx) || hasWC(sx) || dx->kind == 'W' || sx->kind == 'W')
+            {
+                bad();
+                continue;
+            }
+            std::vector<std::string> names;
+            dx->space->getCommonSubspaces(sx->space, names);
+            auto res = ob::copyStateData(dx->space, d->second.st, sx->space, s->second.st, names);
+            std::vector<unsigned long long> ns;
+            for (auto &n : names)
+                ns.push_back(std::stoull(n.substr(1)));
+            std::sort(ns.begin(), ns.end());
+            std::string l;
+            for (size_t k = 0; k < ns.size(); ++k)
+                l += (k ? "," : "") + std::to_string(ns[k]);
+            std::cout << "ok names=" << (l.empty() ? "-" : l) << " res=" << (int)res << " atoms=" << dumpAtoms(dx, d->second.st)
+                      << std::endl;
         }
         else if (op == "ss" && natAt(1) && natAt(2) && natAt(3))
         {
